@@ -70,7 +70,7 @@ template <class F> std::string safe(F f) {
 struct World {
     std::map<int, std::unique_ptr<QPDF>> docs;           // live documents
     std::map<int, std::pair<int, QPDFObjectHandle>> roots; // held handles: root number -> (document tag, handle)
-    int ndocs = 0;                                        // documents ever created (ids are 0,1,2,...)
+    int ndocs = 1;                                        // next document id (ids are 1,2,3,...; 0 is the model's scratch arena)
 
     QPDF* doc(int d) { auto it = docs.find(d); return it == docs.end() ? nullptr : it->second.get(); }
 
